@@ -230,7 +230,11 @@ S2 == WithIntro(
                        d |-> InF(Ty("In"), Absent),
                        e |-> InF(Ty("Color"), VE("GREEN")),
                        f |-> InF(Ty("Float"), Absent),
-                       g |-> InF(Ls(Ls(Ty("Int"))), Absent)]),
+                       g |-> InF(Ls(Ls(Ty("Int"))), Absent),
+                       \* Non-Null input fields WITH a default value (location defaults of 5.8.5)
+                       h |-> InF(NN(Ty("Int")), VI(5)),
+                       k |-> InF(NN(Ty("Sub")), VO(<<>>, <<>>))]),
+     Sub   |-> InputT([z |-> InF(Ty("Int"), VI(1)), zs |-> InF(NN(Ls(Ty("Int"))), VL(<<VI(1)>>))]),
      T     |-> ObjT([i |-> Fld(Ty("Int"), [x |-> Arg(Ty("Int"), VI(7))]),
                      color |-> Fld(Ty("Color"), [not |-> Arg(Ty("Color"), Absent)]),
                      self |-> Fld(Ty("T"), NoArgs)], {}),
